@@ -198,4 +198,4 @@ def run(prog: Program, rep: Report, tier: str = "quick") -> None:
     rep.floor("R2.1", 6 * n)
     rep.floor("R2.4", 6 * n)
     rep.floor("R2.5", 6 * n)
-    rep.floor("R2.7", 2 * n)
+    rep.floor("R2.7", n)
